@@ -1,7 +1,7 @@
 """C12 - malformed or inconsistent input is rejected by an exception (post-JSON validation units only; see DESIGN.md)."""
 from C01 import TUS as T1
 MODELS = ['features/plume', 'features/plume_models/temperature/gaussian', 'features/continental_plate_models/velocity/uniform_raw', 'features/continental_plate_models/composition/uniform', 'features/continental_plate_models/grains/uniform', 'features/oceanic_plate_models/grains/uniform', 'features/mantle_layer_models/grains/uniform', 'features/mantle_layer_models/grains/interface',
-          'features/oceanic_plate_models/temperature/half_space_model', 'features/feature_utilities', 'objects/surface', 'kd_tree'] \
+          'features/oceanic_plate_models/temperature/half_space_model', 'features/oceanic_plate_models/composition/tian2019_water_content', 'features/subducting_plate_models/composition/tian2019_water_content', 'features/subducting_plate_models/temperature/mass_conserving', 'features/subducting_plate_models/composition/interface', 'features/subducting_plate_models/temperature/interface', 'features/feature_utilities', 'objects/surface', 'kd_tree'] \
          + ['features/%s_models/%s/interface' % (f, k) for f in ('plume', 'continental_plate', 'oceanic_plate') for k in ('temperature', 'composition', 'grains', 'velocity')]
 TUS = ['c12.cc'] + T1[1:] + MODELS
 ST = ['Parameters API replaced by a stub delivering lists of the stated lengths and arbitrary values (JSON layer outside)', 'Interface::get_coordinates, add_vector_unique, get_unique_pointers stubbed (no sub-models)']
@@ -22,4 +22,6 @@ OBLIGATIONS = [
     ob('C12.len.ridge', 'h_c12_ridge', [(1, 2, 1), (1, 2, 2), (1, 2, 3), (2, 2, 4), (2, 2, 2), (2, 2, 1)], ['half-space model: one spreading velocity or one per ridge point is accepted',
        'half-space model: a spreading-velocity list that matches neither 1 nor the number of ridge points is rejected with an exception', 'queried', 'end'], '1..2 ridges of 2 points, 0..4 spreading velocities'),
     ob('C12.opt.depthmethod', 'h_c12_depth_method', [()], ['an accepted depth method option leaves a defined, supported depth method', 'end'], 'the four option strings the schema allows for "depth method"', mode='fp'),
+    ob('C12.opt.strings', 'h_c12_string_option', [(0,), (1,), (2,)], ['an accepted lithology option leaves a defined, supported lithology', 'an accepted reference model option leaves a defined, supported reference model', 'end'],
+       'string options the schema leaves unrestricted: lithology (both water-content models), reference model name (mass conserving); three supported values and one unsupported each', mode='fp', native=False),
 ]
